@@ -31,4 +31,34 @@ def obsOk (o : Obs) : Bool :=
 def badObs (os : List Obs) : List Nat :=
   (os.zipIdx.filter (fun (o, _) => !obsOk o)).map Prod.snd
 
+/-- `break-before/after: avoid` meeting between two adjacent siblings `A`, `B`: the page of the last fragment of
+`A`, the page of the first fragment of `B`, and whether `A` was the first content placed on its page (then no
+other legal break point exists on that page before `A`: the page would otherwise stay empty). -/
+structure AvoidObs where
+  values : List Brk
+  pageA : Nat
+  pageB : Nat
+  aFirst : Bool
+  deriving Repr, Inhabited
+
+def avoidOk (o : AvoidObs) : Bool :=
+  if avoids false (resolve o.values) then o.pageA == o.pageB || o.aFirst else true
+
+def badAvoid (os : List AvoidObs) : List Nat :=
+  (os.zipIdx.filter (fun (o, _) => !avoidOk o)).map Prod.snd
+
+/-- A unit with `break-inside: avoid`: the number of pages its content appears on, and whether it was the first
+content placed on the first of them (the only case in which it may be split). -/
+structure InsideObs where
+  value : Brk
+  pages : Nat
+  first : Bool
+  deriving Repr, Inhabited
+
+def insideOk (o : InsideObs) : Bool :=
+  if avoids false o.value then decide (o.pages ≤ 1) || o.first else true
+
+def badInside (os : List InsideObs) : List Nat :=
+  (os.zipIdx.filter (fun (o, _) => !insideOk o)).map Prod.snd
+
 end Wp.BreakTrace
